@@ -95,6 +95,7 @@ variable (E : Env) (fa : Option Nat)
 @[simp] theorem wf_spyFunctions : (E.withFail fa).spyFunctions = E.spyFunctions := rfl
 @[simp] theorem wf_spyTests : (E.withFail fa).spyTests = E.spyTests := rfl
 @[simp] theorem wf_failAt : (E.withFail fa).failAt = fa := rfl
+@[simp] theorem wf_globals : (E.withFail fa).globals = E.globals := rfl
 @[simp] theorem wf_denied (c : Ctx) (l : List Bytes) (name : Bytes) : denied (E.withFail fa) c l name = denied E c l name := rfl
 @[simp] theorem wf_allowedCheck (st : St) (l : List Bytes) (name : Bytes) (w : String) :
     allowedCheck (E.withFail fa) st l name w = allowedCheck E st l name w := rfl
@@ -168,7 +169,8 @@ theorem evalX_agree :
   all_goals try simp only [Expr.noDefAttr, Expr.noDefAttrs, Bool.and_eq_true] at *
   all_goals split_hyp_ands
   all_goals try (simp_all only [Bool.not_true, Bool.false_eq_true]; done)
-  all_goals try simp only [evalX, evalArgs, evalPairs, wf_allowedCheck, wf_allowedFilters, wf_allowedFunctions, wf_spyTests]
+  all_goals try simp only [evalX, evalArgs, evalPairs, wf_allowedCheck, wf_allowedFilters, wf_allowedFunctions, wf_spyTests,
+    wf_globals]
   all_goals ag (trivial)
   · unfold evalX
     rw [if_neg ‹_›, if_neg ‹_›]
@@ -862,17 +864,18 @@ theorem C17_unresolved :
 
 /-- **C17_tolerances**: an undefined variable and an undefined attribute evaluate to null, null
     prints as the empty string, and `ignore missing` on a missing template renders nothing —
-    all with a nil error -/
+    all with a nil error.  (A name no scope binds and no macro carries reads as the engine global of
+    that name when there is one — `Engine.AddGlobal` — and as null otherwise: never an error.) -/
 theorem C17_tolerances (E : Env) (go : Go) (tpl : Bytes) (st : St) :
     (∀ apply n, st.ctx.hasVar n = false → st.ctx.getMacro n = none → st.ctx.getVar n = .null →
-      evalX E apply (.var n) st = .ok ((.null, []), st)) ∧
+      evalX E apply (.var n) st = .ok (((getKV n E.globals).getD .null, []), st)) ∧
     (∀ name o, (∀ kvs, o = .map kvs → mapGet name kvs = none) → getAttr o name = .null) ∧
     printVal go .null st = .ok ([], st) ∧
     (∀ name ns es only sb, isRelative name = false → E.tpl? name = none →
       renderNode E go tpl (.include (.str name) ns es true only sb) st = .ok ([], st)) := by
   refine ⟨?_, ?_, ?_, ?_⟩
   · intro apply n hv hm hn
-    simp [evalX, hv, hm, hn, pure, Except.pure]
+    cases hg : getKV n E.globals <;> simp [evalX, hv, hm, hn, hg, pure, Except.pure]
   · intro name o ho
     cases o <;> simp [getAttr]
     rename_i kvs
